@@ -4,6 +4,7 @@ from props import _generic as g
 
 def run(ctx):
     fns = g.run_pyvc(ctx, "C01")
+    fams = g.run_fsearch(ctx)
     ctx.standin("hist_rt", families=("OO", "II") if ctx.tier == "quick" else ("OO", "II", "LF", "QQ", "fs", "IO", "UU", "LL"),
                 args=["--mode", "model"])
     return "proof", (
@@ -12,6 +13,11 @@ def run(ctx):
         "__len__) and _Tree._search / _compat.compare are under contract (%d functions); each postcondition states "
         "the whole new view (strictly sorted keys, exactly one slot changed/inserted/removed, all other entries "
         "unchanged, result, exception class, contents unchanged on raise) and is discharged by z3 for all keys, "
-        "values and list lengths (keys are an arbitrary total order, hence all 22 families). The interior-node "
-        "level of both implementations and the C leaf layer are covered by the bounded stand-in hist_rt (model mode)."
-        % len(fns))
+        "values and list lengths (keys are an arbitrary total order, hence all 22 families). Engine C, F-SEARCH: every "
+        "expansion of BUCKET_SEARCH / BTREE_SEARCH in the macro-expanded clang AST of the integer-keyed units (%s: "
+        "_bucket_get, _bucket_set, Bucket_findRangeEnd, _BTree_get, _BTree_set, BTree_findRangeEnd) is cut at an "
+        "inductive invariant and proved for all lengths, contents and keys: found <=> the key is at the returned index, "
+        "absent => the index is the insertion point, interior nodes pick the child whose separator range holds the key, "
+        "reads in bounds, no int overflow, termination (assumes the vector ascending at the start of the search). "
+        "The rest of the C implementation and the interior-node level of both are the bounded stand-in hist_rt (model mode)."
+        % (len(fns), ", ".join(fams)))
